@@ -222,6 +222,7 @@ func (r *Request) AddParam(key, val string) *Request {
 
 // SetParam sets a single query parameter and value in the Request, overriding any previously set value.
 func (r *Request) SetParam(key, val string) *Request {
+	r.params.Del(key)
 	r.params.Set(key, val)
 	return r
 }
@@ -718,6 +719,7 @@ func (p *QueryParam) AddParams(r map[string][]string) {
 // SetParams sets multiple parameters from a map, overriding previously set values.
 func (p *QueryParam) SetParams(r map[string]string) {
 	for k, v := range r {
+		p.Del(k)
 		p.Set(k, v)
 	}
 }
